@@ -243,6 +243,9 @@ func Main(id, tier string, replayPath string) int {
 	if s := os.Getenv("VERIF_SEED"); s != "" {
 		seed, _ = strconv.ParseInt(s, 10, 64)
 	}
+	if os.Getenv("GOGC") == "" {
+		debug.SetGCPercent(800) // many small short-lived allocations; the default setting serialises the workers on GC
+	}
 	root := scratchRoot()
 	os.MkdirAll(root, 0o755)
 	defer os.RemoveAll(root)
